@@ -251,6 +251,64 @@ pub mod __verif {
         INSTR_HOOK.with(|h| *h.borrow_mut() = hook);
     }
 
+    use crate::compiler::instructions::Instructions;
+    use std::cell::Cell;
+
+    /// Arguments: the instructions being evaluated, a number identifying the activation
+    /// of the evaluation loop (unique per thread), the pc, the length of the operand
+    /// stack, the number of frames on the context, the number of open captures on the
+    /// output and the length of the activation's auto-escape stack.
+    type ShapeObserver =
+        Box<dyn for<'a, 'b> FnMut(&'a Instructions<'b>, usize, u32, usize, usize, usize, usize)>;
+
+    thread_local! {
+        static SHAPE_OBSERVER: RefCell<Option<ShapeObserver>> = const { RefCell::new(None) };
+        static ACTIVATIONS: Cell<usize> = const { Cell::new(0) };
+    }
+
+    /// Installs (or removes) a per-thread observer that is told, before every
+    /// instruction the VM executes, how much the evaluation currently holds.
+    pub fn set_shape_observer(observer: Option<ShapeObserver>) {
+        SHAPE_OBSERVER.with(|h| *h.borrow_mut() = observer);
+    }
+
+    #[inline]
+    pub(crate) fn next_activation() -> usize {
+        ACTIVATIONS.with(|c| {
+            let rv = c.get().wrapping_add(1);
+            c.set(rv);
+            rv
+        })
+    }
+
+    #[inline]
+    #[allow(clippy::too_many_arguments)]
+    pub(crate) fn on_shape(
+        instructions: &Instructions<'_>,
+        activation: usize,
+        pc: u32,
+        stack_len: usize,
+        frames: usize,
+        captures: usize,
+        auto_escapes: usize,
+    ) {
+        SHAPE_OBSERVER.with(|h| {
+            if let Ok(mut h) = h.try_borrow_mut() {
+                if let Some(f) = h.as_mut() {
+                    f(
+                        instructions,
+                        activation,
+                        pc,
+                        stack_len,
+                        frames,
+                        captures,
+                        auto_escapes,
+                    );
+                }
+            }
+        });
+    }
+
     #[inline]
     pub(crate) fn on_instruction(instr: &Instruction<'_>) {
         INSTR_HOOK.with(|h| {
